@@ -4,6 +4,8 @@ import PV.Proofs.CseEval
 import PV.Proofs.CseValue
 import PV.Proofs.CseShare
 import PV.Proofs.CseErase
+import PV.Proofs.CseTallyMain
+import PV.Proofs.CseTallyPlanSpec
 import PV.Properties.C02
 /-
   C12 — common-subexpression handling keeps meaning and shares work: property theorems.
@@ -341,5 +343,193 @@ theorem wrap_leaves_makeCse_subscript_cex :
 theorem wrap_leaves_makeCse_wrapper_cex :
     makeCse (.cse (.var "x") none evalScope) (some "p") (some "pymbolic_expr") =
       .cse (.cse (.var "x") none evalScope) (some "p") "pymbolic_expr" := rfl
+
+/-! ### 6. end to end: tag, then evaluate everything with ONE evaluator — each operation once
+
+Model (PV/Model/CseTally.lean): `evalCnt` is `evalTr` with two more kinds of events in its log —
+`arithN` / `arithB` (one `+`, `*`, `/`, `//`, `%`, `**` was performed: what a counting number in
+the environment observes) and `node e` (the handler of operation node `e` returned) — and with the
+functions of the environment as a parameter `sem` (ANY pure functions).  `c12PlanL es []` is the
+reference "every distinct operation once" of the harness oracle (`reference_counts` with the
+one-level classifier): one representative per normalised key (`NormalizedKeyGetter`: sums and
+products up to the order of their operands, the operands AS WRITTEN), in evaluation order.
+`c12Count k` counts the operations of kind `k` in a log, `c12Cost k` those a list of operation
+nodes stands for (a sum of n operands: n additions, as `sum(...)` performs them).
+
+Which notion of "the same operation" does the code achieve?  NEITHER of the two the oracle
+computes, exactly:
+  * one-level (`onelevel_class`, the tagger's own key): each class is performed AT MOST once
+    (`tagged_ops_once`, unconditional) and EXACTLY once — the run performs precisely the reference
+    plan — when no two canonical wrappers are structurally equal (`tagged_ops_reference_partial`);
+    two classes that differ only in the operand order of a NESTED sum/product and are both
+    repeated get equal wrappers, and then the evaluator's cache merges them too: fewer operations
+    than one per class (`tagged_tally_onelevel_cex`);
+  * recursive (`recursive_class`): false in the other direction — `(a+b)*c` and `c*(b+a)` share
+    `a+b` but the product is performed twice (`tagged_tally_recursive_cex`, the known finding
+    nested-commuted-operands-not-merged). -/
+
+/-- the counting evaluator is a thin copy of the instrumented evaluator of §4: forgetting the
+arithmetic and handler events, same results and same `child` / `call` log — hence (C02,
+`evalTr_is_evalG`) the values are those of `evalG` and `den` -/
+theorem counting_is_evalTr (env : Env) (e : Expr) (t : C12Log) :
+    (evalCnt c12SemApp env e t).1 = (evalTr env e (c12Erase t)).1 ∧
+      c12Erase (evalCnt c12SemApp env e t).2 = (evalTr env e (c12Erase t)).2 :=
+  cnt_er env e t
+
+theorem counting_list_is_evalTr (env : Env) (es : List Expr) (t : C12Log) :
+    (evalCntList c12SemApp env es t).1 = (evalTrList env es (c12Erase t)).1 ∧
+      c12Erase (evalCntList c12SemApp env es t).2 = (evalTrList env es (c12Erase t)).2 :=
+  cntList_er env es t
+
+/-- **what the use counts mean.**  Counting a fragment list never fails, and wherever the
+memoising reference walk over the inputs meets a key it has met before (`c12HitsElimL`: every memo
+hit), that key has been counted at least twice, i.e. is in `to_eliminate`.  (Conversely an
+operation that is not in `to_eliminate` is met once.) -/
+theorem repeats_are_eliminated (es : List Expr) (hf : Expr.fragL es = true) :
+    ∃ cnt, useCountL es [] = .ok cnt ∧ c12HitsElimL (elimKeys cnt) es [] = true :=
+  let ⟨cnt, h1, h2, _⟩ := useCountL_hitsElim es hf
+  ⟨cnt, h1, h2⟩
+
+/-- non-vacuity: `a+b`, `b+a` and `(a+b)**2`: one key (the sum) is counted twice and eliminated,
+and the reference walk has exactly one memo hit, on that key -/
+example :
+    let a := Expr.var "a"; let b := Expr.var "b"
+    let es := [Expr.nary .sum [a, b], .bin .pow (.nary .sum [b, a]) (.const (.int 2))]
+    Expr.fragL es = true ∧ (c12Elim es).length = 1 ∧ c12HitsElimL (c12Elim es) es [] = true ∧
+      c12HitsElimL [] es [] = false := by
+  refine ⟨by decide, by decide, by decide, by decide⟩
+
+/-- **the reference plan is "every distinct operation once".**  For a fragment list: no two
+members of `c12PlanL es []` have the same normalised key, every member is an operation subterm of
+the inputs (`c12OpsL`), and every operation subterm of the inputs has the key of a member. -/
+theorem reference_plan_spec (es : List Expr) (hf : Expr.fragL es = true) :
+    (c12PlanL es []).Pairwise (fun a b => c12SameKey a b = false) ∧
+    (∀ s ∈ c12PlanL es [], s ∈ c12OpsL es) ∧
+    (∀ x ∈ c12OpsL es, c12Has (c12PlanL es []) x = true) := by
+  obtain ⟨dn, h, hI, hs, ha⟩ := c12PlanL_ok es [] hf
+    ⟨by intro s hs; simp at hs, List.Pairwise.nil, by intro s hs; simp at hs⟩
+  simp only [List.nil_append] at h
+  refine ⟨hI.pw, ?_, ha⟩
+  intro s hs'
+  rw [h] at hs'
+  exact (hs s hs').2
+
+/-- non-vacuity: three operations, two keys (the commuted sum is the same operation) -/
+example :
+    let a := Expr.var "a"; let b := Expr.var "b"
+    c12PlanL [.nary .sum [a, b], .bin .pow (.nary .sum [b, a]) (.const (.int 2))] [] =
+      [.nary .sum [a, b], .bin .pow (.nary .sum [b, a]) (.const (.int 2))] := by decide
+
+/-- **every successful run follows the value-free schedule**, for all environments and all
+function semantics: the handlers that return (`c12Nodes`, oldest first) are `c12SchedL`, the
+wrappers computed are its cache, and for every kind of operation the number performed is the
+cost of the scheduled nodes. -/
+theorem eval_follows_schedule (sem : C12Sem) (env : Env) (outs : List Expr) (vals : List Value)
+    (t : C12Log) (hf : Expr.tfragL outs = true)
+    (hr : evalCntList sem env outs [] = (.ok vals, t)) :
+    (c12Nodes t).reverse = (c12SchedL outs []).1 ∧ c12Computed t = (c12SchedL outs []).2 ∧
+      ∀ k, c12Count k t = c12Cost k (c12SchedL outs []).1 := by
+  obtain ⟨new, e1, a1, b1, _, d1⟩ :=
+    evalCntList_sched sem env outs [] t vals hf (by intro w hw; simp [c12Computed, c12CacheOf] at hw) hr
+  simp only [List.append_nil] at e1; subst e1
+  have hc : c12Computed ([] : C12Log) = [] := rfl
+  rw [hc] at a1 b1 d1
+  exact ⟨a1, b1, fun k => by simpa using d1 k⟩
+
+/-- **End to end, at most once (unconditional).**  For inputs built from variables, integer
+constants, sums, products, divisions, powers and calls: `tag_common_subexpressions` succeeds, and
+whenever ALL its outputs are evaluated with ONE evaluator without an exception (any environment,
+any pure functions in it), the operation nodes whose handler ran, in order, are a SUBLIST of the
+tagged forms (`c12Rebuild`: operands replaced by their tagged versions) of the reference plan —
+one representative per normalised key.  So no operation the tagger identifies (same normalised
+key) is performed twice, and for every kind of operation the number performed is at most the
+reference tally. -/
+theorem tagged_ops_once (sem : C12Sem) (env : Env) (es : List Expr)
+    (hf : Expr.fragL es = true) :
+    ∃ outs, tagAll es = .ok outs ∧ ∀ vals t, evalCntList sem env outs [] = (.ok vals, t) →
+      (c12Nodes t).reverse.Sublist
+        ((c12PlanL es []).map (c12Rebuild (c12Elim es) (c12Table es))) ∧
+      ∀ k, c12Count k t ≤ c12Cost k (c12PlanL es []) := by
+  obtain ⟨outs, h1, _, h3, h4, _⟩ := tagAll_sched es hf
+  refine ⟨outs, h1, fun vals t hr => ?_⟩
+  obtain ⟨a, _, c⟩ := eval_follows_schedule sem env outs vals t h3 hr
+  refine ⟨a ▸ h4, fun k => ?_⟩
+  rw [c k, ← c12Cost_map_rebuild k (c12Elim es) (c12Table es) (c12PlanL es [])]
+  exact c12Cost_sublist k h4
+
+/-- **End to end, exactly the reference (when the canonical wrappers are pairwise distinct).**
+Then the handlers that ran are EXACTLY the tagged forms of the reference plan, in its order: every
+normalised key among the operations of the input is performed exactly once, and the tally of the
+run (additions, multiplications, divisions, powers, calls) is the reference tally
+`c12RefTally es` = "every distinct operation once" with the one-level classifier. -/
+theorem tagged_ops_reference_partial (sem : C12Sem) (env : Env) (es : List Expr)
+    (hf : Expr.fragL es = true) (hnc : c12NoCollapse es) :
+    ∃ outs, tagAll es = .ok outs ∧ ∀ vals t, evalCntList sem env outs [] = (.ok vals, t) →
+      (c12Nodes t).reverse = (c12PlanL es []).map (c12Rebuild (c12Elim es) (c12Table es)) ∧
+      (∀ k, c12Count k t = c12Cost k (c12PlanL es [])) ∧
+      c12TallyOfLog t = c12RefTally es := by
+  obtain ⟨outs, h1, _, h3, _, h5⟩ := tagAll_sched es hf
+  refine ⟨outs, h1, fun vals t hr => ?_⟩
+  obtain ⟨a, _, c⟩ := eval_follows_schedule sem env outs vals t h3 hr
+  have hk : ∀ k, c12Count k t = c12Cost k (c12PlanL es []) := by
+    intro k
+    rw [c k, h5 hnc, c12Cost_map_rebuild]
+  refine ⟨by rw [a, h5 hnc], hk, ?_⟩
+  simp only [c12TallyOfLog, c12RefTally, c12TallyOfNodes, hk]
+
+/-- the same on the level of tallies, unconditional: never more than the reference -/
+theorem tagged_tally_le_reference (sem : C12Sem) (env : Env) (es outs : List Expr)
+    (vals : List Value) (t : C12Log) (hf : Expr.fragL es = true) (h : tagAll es = .ok outs)
+    (hr : evalCntList sem env outs [] = (.ok vals, t)) :
+    (c12TallyOfLog t).add ≤ (c12RefTally es).add ∧ (c12TallyOfLog t).mul ≤ (c12RefTally es).mul ∧
+    (c12TallyOfLog t).div ≤ (c12RefTally es).div ∧ (c12TallyOfLog t).pow ≤ (c12RefTally es).pow ∧
+    (c12TallyOfLog t).call ≤ (c12RefTally es).call := by
+  obtain ⟨outs', h1, h2⟩ := tagged_ops_once sem env es hf
+  rw [h] at h1; injection h1 with h1; subst h1
+  have := (h2 vals t hr).2
+  exact ⟨this _, this _, this _, this _, this _⟩
+
+/-- non-vacuity: the hypotheses of the exact theorem hold for a list with a repeated call, a
+commuted sum and a nested repeated product, evaluated with the counting function of the harness;
+the run performs 2 additions, 2 multiplications and one call -/
+example :
+    let a := Expr.var "a"; let b := Expr.var "b"; let f := Expr.var "f"
+    let es := [Expr.call f [.nary .sum [a, b]], .nary .prod [.nary .sum [b, a], .call f [.nary .sum [a, b]]]]
+    let env : Env := [("a", .int 1), ("b", .int 2), ("f", .func "f")]
+    Expr.fragL es = true ∧ c12NoCollapse es ∧
+    c12RunTally c12SemAffine env es = some ⟨2, 2, 0, 0, 0, 0, 1⟩ ∧
+    c12RefTally es = ⟨2, 2, 0, 0, 0, 0, 1⟩ := by
+  refine ⟨by decide, by decide, by decide, by decide⟩
+
+/-- **the one-level notion is not exact**: `[(a+b)*c, (a+b)*c, (b+a)*c, (b+a)*c]` — the two
+products have different keys (their first operands are different expressions), both are repeated,
+and both canonical wrappers are `CSE(CSE(a+b)*c)`; the run performs 2 multiplications, one per
+class would be 4. -/
+theorem tagged_tally_onelevel_cex :
+    let a := Expr.var "a"; let b := Expr.var "b"; let c := Expr.var "c"
+    let e0 := Expr.nary .prod [.nary .sum [a, b], c]
+    let e1 := Expr.nary .prod [.nary .sum [b, a], c]
+    let es := [e0, e0, e1, e1]
+    let env : Env := [("a", .int 1), ("b", .int 2), ("c", .int 3)]
+    Expr.fragL es = true ∧ ¬ c12NoCollapse es ∧ c12SameKey e0 e1 = false ∧
+    c12RunTally c12SemApp env es = some ⟨2, 2, 0, 0, 0, 0, 0⟩ ∧
+    c12RefTally es = ⟨2, 4, 0, 0, 0, 0, 0⟩ := by
+  refine ⟨by decide, by decide, by decide, by decide, by decide⟩
+
+/-- **the recursive notion fails**: `[(a+b)*c, c*(b+a)]` — `a+b` is shared, but the two products
+have different keys, each occurs once, and both are performed (4 multiplications); as tagged
+operations they ARE the same up to operand order: the handlers that ran include two products with
+equal normalised key. -/
+theorem tagged_tally_recursive_cex :
+    let a := Expr.var "a"; let b := Expr.var "b"; let c := Expr.var "c"
+    let w := Expr.cse (.nary .sum [a, b]) none evalScope
+    let es := [Expr.nary .prod [.nary .sum [a, b], c], .nary .prod [c, .nary .sum [b, a]]]
+    let env : Env := [("a", .int 1), ("b", .int 2), ("c", .int 3)]
+    Expr.fragL es = true ∧ c12NoCollapse es ∧
+    c12RunNodes c12SemApp env es =
+      some [.nary .sum [a, b], .nary .prod [w, c], .nary .prod [c, w]] ∧
+    c12SameKey (.nary .prod [w, c]) (.nary .prod [c, w]) = true ∧
+    c12RunTally c12SemApp env es = some ⟨2, 4, 0, 0, 0, 0, 0⟩ := by
+  refine ⟨by decide, by decide, by decide, by decide, by decide⟩
 
 end PV.C12
